@@ -111,3 +111,52 @@ def declare(reg):
         is_async=True,
         props=["C06", "C05", "C15"],
     )
+
+    # ---- Authenticated.do_select (C01): the queue of the previous selection is dropped BEFORE the new snapshot is taken ----
+    reg.contract(
+        C, "Authenticated.do_select",
+        params={"self": "ref:Authenticated", "cmd": "ref:IMAPClientCommand", "examine": "bool"}, ret="opt[str]",
+        requires={"from-parser": "cmd.mailbox_name == '' or safe_rel(rel_name(cmd.mailbox_name))",
+                  "has-server": "not is_none(self.server)"},
+        ensures={
+            # what the session is told on a successful SELECT is exactly the snapshot selected() took
+            "selected-state": "implies(not is_none(result), self.state == ClientState.SELECTED and not is_none(self.mbox) and self.examine == examine)",
+            "mode-code": "implies(not is_none(result), some(result) == ite(examine, '[READ-ONLY]', '[READ-WRITE]'))",
+            "not-idling": "not self.idling",
+        },
+        raises={"No": None, "Bad": None, "NoSuchMailbox": None},
+        # "even if the attempt fails, [SELECT] deselects any already selected mailbox"
+        exc_ensures={"deselected-on-failure": "self.state != ClientState.SELECTED", "not-idling": "not self.idling"},
+        modifies=["self.pending_notifications", "self.idling", "self.state", "self.mbox", "self.examine", "self.select_while_selected_count",
+                  "Mailbox.clients", "ClientProxy.g_out"],
+        ghost={
+            "harness": "harness.e2e:ViewReplay",
+            "assume_pre_of": {"selected": ["fresh-client"]},
+            "call_asserts": {"selected": {
+                # replaying the new view starts from this snapshot: nothing queued for the previous selection may survive into it
+                "queue-empty-at-snapshot": "arg_client == self and len(self.pending_notifications) == 0",
+            }},
+        },
+        is_async=True,
+        props=["C01"],
+    )
+
+    # ---- mailbox names in LIST / LSUB / STATUS responses (C07 c, e) ---------------------------------------------------------
+    reg.specfn("cquoted", "s: str", "str", doc="client.quoted: the IMAP quoted form of s (bounded tier harness.fetchdata:NameQuoting)")
+    WFQ = r'''r'"([^"\\\r\n]|\\[\\"])*"' '''.strip()
+    reg.contract(C, "quoted", params={"value": "str"}, ret="str",
+                 ensures={"is": "result == cquoted(value)", "well-formed-unless-crlf": f"implies(matches(value, r'[^\\r\\n]*'), matches(result, {WFQ}))"},
+                 trusted=True, note="two chained replace_all calls, undecided by z3 and cvc5 against the quoted-string grammar: exhaustive bounded check instead (harness.fetchdata:NameQuoting)")
+    reg.contract(
+        C, "Authenticated._fmt_list_response", params={"mbox_name": "str", "attributes": "set[str]", "child_info": "opt[set[str]]"}, ret="str",
+        ensures={
+            "one-line": r"result.endswith('\r\n') and result.startswith('* LIST (')",
+            # the name is sent as the escaped quoted string, directly after the hierarchy delimiter
+            "name-quoted": r"""result == '* LIST (' + local('attrs_str') + ') "/" ' + cquoted(mbox_name) + '\r\n' or """
+                           r"""(result.startswith('* LIST (' + local('attrs_str') + ') "/" ' + cquoted(mbox_name) + ' ("CHILDINFO" (') and result.endswith('))\r\n'))""",
+        },
+        props=["C07"],
+        ghost={"harness": "harness.fetchdata:NameQuoting"},
+    )
+    reg.properties.setdefault("C07", {}).setdefault("bounded", []).append(
+        {"name": "mailbox-name-quoting", "module": "harness.fetchdata", "func": "NameQuoting"})
